@@ -9,6 +9,9 @@ CLAIMED = {
  "C27": ("§2 C27", "SSA provenance (ownership) analysis: backward origin walk through phi/slice/append/field/extract with reaching stores for local structs, captured-variable cells, return summaries and writes-through summaries to a fixpoint; AST checks of the overlay direction",
   "Decides that no code path of interp/expand/internal writes through variable storage it shares with another shell: every element store, map update, delete, clear, copy, in-place slices/sort call and append on a variable's list, indexes or map, or on the positional parameters, must act on storage created in the same activation; handing such storage to a callee that stores through its parameter is judged at the call site. Also that subshell() gives the copy fresh maps/slices/environment except a named table of fields shared by design, that background copies copy every variable, and that overlays write to their parent only in function scope. The analysis found the in-place array append on the pinned tree (repaired by a fix: commit). Runs on six build configurations in the thorough tier.",
   "Sound relative to: no reflection/unsafe in these packages (checked); storage returned by Environ.Get/lookupVar/Resolve or received as a parameter is treated as shared, clones/makes/literals as owned; stdlib aliasing and mutating helpers come from an explicit table. Does not decide isolation of cd/options/traps beyond by-value copies."),
+ "C05": ("§2 C05", "typed-AST sink analysis of every []Comment field through the printer's methods (parameter-sink fixpoint); same-block pairing of every update of Parser.accComs with the transfer of what it removes, with caller checks for returned cuts; flow-sensitive freshness (reaching definitions over the CFG, interprocedural through parameters) for plain stores to comment fields; must-pass-through for give-back on nil returns and for the printer's set-aside queue; alias-liveness for in-place truncation; edge-cut domination for the Minify gate",
+  "Decides that no comment can be dropped by construction. Parser: every removal from the accumulator is paired with a transfer of exactly the removed comments into a node's comment field (or a returned slice every caller stores in one); a comment field is plainly overwritten only when every reaching definition of its node is a fresh literal whose field was not stored before, across calls; a function that takes the accumulator for a node it then does not return gives it back or every caller errors (this found `time # c` losing its comment: repaired by a fix: commit). Printer: all 17 []Comment fields reach Printer.comments; flushComments writes every queued element before emptying; the heredoc set-aside is restored on every path and never truncated in place while the saved copy is live; with Minify comment text is written only under the shebang and first-line tests and nothing is queued.",
+  "Does not decide placement/order of comments, nor that the three trailing-comment loops that stop after the first comment past the node never skip a second one (a parser invariant: at most one trailing comment is attached)."),
  "C06": ("§2 C06", "case-set inclusion between guards/predicates and token-function switches; exhaustiveness of panicking type-switch defaults with who-may-construct; field-invariant and reflect-marker idioms for unchecked assertions; panic inventory with an explicit precondition table; CFG edge-cut domination of fill() calls by constant-bounded guards and of backward buffer offsets by their underflow test; natural-loop cycle search with computed always-consuming functions and end-of-input exits; reset-field classification shared with C08",
   "Decides structural crash- and hang-freedom clauses for package syntax and typedjson: token functions ending in panic(\"unreachable\") are only called with runes they handle; every type switch whose default panics covers all parser-constructible node types and the JSON encoder handles every reachable field kind; both unchecked type assertions are dominated by the invariant that makes them safe; every remaining panic is an enumerated option/tree-shape precondition (a new panic call is undecided, hence fails); fill() is only called with a constant-bounded number of unread bytes (a lookahead that can fill the whole buffer makes Read return (0, nil) forever); backward offsets into the read buffer are guarded against unsigned underflow; every rune-level loop of the lexer and parser consumes input or reports an error on each cycle and leaves at the end-of-input sentinel; Parser/Printer reuse starts from reset state.",
   "Not decided: general index/nil/slice safety, running time beyond per-cycle progress, the 19 token-level parser loops (termination rests on _EOF being absorbing), trees not built by the parser. Four panic sites are table exceptions with reasons (Variant, StopAt, two typedjson tree-shape preconditions)."),
